@@ -224,6 +224,14 @@ class Prov:
                     if x not in uniq:
                         uniq.append(x)
                 t = uniq[0] if len(uniq) == 1 else ("phi", tuple(uniq))
+                if len(uniq) == 2 and set(uniq) == {("const", True), ("const", False)} and not (1 <= l <= body.argc):
+                    m = self._matches_meaning(ds, depth)
+                    if m is not None:
+                        t = m
+                elif len(uniq) == 2 and len(ds) == 2 and not (1 <= l <= body.argc):
+                    m = self._then_some_meaning(ds, uniq, depth)
+                    if m is not None:
+                        t = m
             ops = self.d.opassign.get(l)
             if ops:
                 g = mir.CFG(self.body) if not hasattr(self.body, "_cfg") else mir.cfg(self.body)
@@ -237,6 +245,84 @@ class Prov:
             self._stack.discard(l)
         self._memo[l] = t
         return t
+
+    def _matches_meaning(self, ds, depth):
+        """`matches!(x, Enum::V)` on a field-less variant compiles to: switch on discriminant(x), one arm storing
+        `true`, the other `false`. Give that bool the same tree as `x == Enum::V` (a call of PartialEq::eq), so the two
+        spellings of the test are indistinguishable to the rules."""
+        body = self.body
+        prog = getattr(getattr(body, "unit", None), "prog", None)
+        if prog is None or not hasattr(body, "blocks"):
+            return None
+        tb = [bi for (bi, si, d) in ds if d[0] == "assign" and d[1]["k"] == "use" and mir.op_const(d[1]["op"]) is True]
+        fb = [bi for (bi, si, d) in ds if d[0] == "assign" and d[1]["k"] == "use" and mir.op_const(d[1]["op"]) is False]
+        if len(tb) != 1 or len(fb) != 1:
+            return None
+        preds = [i for i, b in enumerate(body.blocks) if tb[0] in mir.term_succs(b["term"])]
+        if len(preds) != 1:
+            return None
+        t = body.blocks[preds[0]]["term"]
+        if t["k"] != "switch" or fb[0] not in mir.term_succs(t):
+            return None
+        vals = [v for v, tg in t["targets"] if tg == tb[0]]
+        if len(vals) != 1 or t["otherwise"] == tb[0]:
+            return None
+        dt = strip(self.op_tree(t["discr"], depth + 1))
+        if dt[0] != "discr":
+            return None
+        dp = mir.op_place(t["discr"])
+        # the place whose discriminant was read
+        src = None
+        if dp is not None and not dp["proj"]:
+            for (bi, si, d) in self.d.whole.get(dp["l"], []):
+                if d[0] == "assign" and d[1]["k"] == "discr":
+                    src = d[1]["p"]
+        if src is None:
+            return None
+        from . import conds as _c
+        vmap, adt = _c.variants_of(prog, body, src["ty"])
+        if not vmap or vals[0] not in vmap:
+            return None
+        ent = prog.adts.get(body.ty(src["ty"]).get("path") or "")
+        if ent is not None:
+            var = [v for v in ent[1]["variants"] if v["name"] == vmap[vals[0]]]
+            if var and var[0]["fields"]:
+                return None          # a variant with payload: `==` would compare the payload too
+        return ("call", "core::cmp::PartialEq::eq", "eq", (dt[1], ("agg", adt, vmap[vals[0]], ())))
+
+    def _then_some_meaning(self, ds, trees, depth):
+        """`if c { Some(v) } else { None }` gets the tree of `c.then_some(v)` (v must not depend on c being true:
+        a plain place/constant expression, as then_some evaluates it eagerly)"""
+        body = self.body
+        if not hasattr(body, "blocks"):
+            return None
+        some = [(i, t) for i, t in enumerate(trees) if t[0] == "agg" and t[1] == "Option" and t[2] == "Some" and len(t[3]) == 1]
+        none = [(i, t) for i, t in enumerate(trees) if t[0] == "agg" and t[1] == "Option" and t[2] == "None"]
+        if len(some) != 1 or len(none) != 1 or len(ds) != 2:
+            return None
+        # which def is which
+        sb = nb = None
+        for (bi, si, d) in ds:
+            if d[0] == "assign" and d[1]["k"] == "agg":
+                if d[1].get("variant") == "Some":
+                    sb = bi
+                elif d[1].get("variant") == "None":
+                    nb = bi
+        if sb is None or nb is None:
+            return None
+        preds = [i for i, b in enumerate(body.blocks) if sb in mir.term_succs(b["term"]) and nb in mir.term_succs(b["term"])]
+        if len(preds) != 1:
+            return None
+        t = body.blocks[preds[0]]["term"]
+        if t["k"] != "switch" or body.ty(t["dty"])["s"] != "bool":
+            return None
+        tg = dict((v, x) for v, x in t["targets"])
+        if not (tg.get(0) == nb and t["otherwise"] == sb):
+            return None
+        v = some[0][1][3][0][1]
+        if strip(v)[0] not in ("path", "const", "field"):
+            return None
+        return ("call", "core::bool::<impl bool>::then_some", "then_some", (self.op_tree(t["discr"], depth + 1), v))
 
     # ---- operands / rvalues
     def op_tree(self, op, depth=0):
